@@ -254,6 +254,18 @@ fn ends_with_member_name(expression: &expr::E<()>) -> bool {
   }
 }
 
+/// Whether the left spine of a binary expression only uses the expression's own operator on its
+/// precedence level. `(x / y) * c` is not such a chain: printed without parentheses after `a * `, the
+/// `/` would apply to `a * x`.
+fn is_chain_of_one_operator(e: &expr::Binary<()>) -> bool {
+  match e.e1.as_ref() {
+    expr::E::Binary(e1) if e1.operator.precedence() == e.operator.precedence() => {
+      e1.operator == e.operator && is_chain_of_one_operator(e1)
+    }
+    _ => true,
+  }
+}
+
 fn create_doc_for_if_else(
   heap: &Heap,
   comment_store: &CommentStore,
@@ -712,6 +724,7 @@ fn create_doc_without_preceding_comment(
       }
       if let expr::E::Binary(e2) = e.e2.as_ref()
         && e2.operator == e.operator
+        && is_chain_of_one_operator(e2)
       {
         // For a chain of one associative operator, we can remove parentheses.
         match e.operator {
